@@ -43,6 +43,29 @@ logger = logging.getLogger(__name__)
 configuration = Configuration()
 
 
+def _get_solver_tolerances(solver: "optlang.interface.Model") -> Dict[str, float]:
+    """Return the tolerances the solver interface offers, by name."""
+    tolerances = {}
+    for name in ("feasibility", "optimality", "integrality"):
+        try:
+            tolerances[name] = getattr(solver.configuration.tolerances, name)
+        except AttributeError:
+            pass
+    return tolerances
+
+
+def _set_solver_tolerances(
+    solver: "optlang.interface.Model", tolerances: Dict[str, float]
+) -> None:
+    """Apply tolerances (by name) where the solver interface offers them."""
+    for name, value in tolerances.items():
+        try:
+            if getattr(solver.configuration.tolerances, name) != value:
+                setattr(solver.configuration.tolerances, name, value)
+        except AttributeError:
+            pass
+
+
 class Model(Object):
     """Class representation for a cobra model.
 
@@ -110,6 +133,9 @@ class Model(Object):
         state: dict
         """
         self.__dict__.update(state)
+        tolerances = self.__dict__.pop("_solver_tolerances", None)
+        if tolerances and self.__dict__.get("_solver") is not None:
+            _set_solver_tolerances(self._solver, tolerances)
         for y in ["reactions", "genes", "metabolites", "groups"]:
             # (pickles of old versions have no groups)
             for x in getattr(self, y, []):
@@ -130,6 +156,10 @@ class Model(Object):
         """
         odict = self.__dict__.copy()
         odict["_contexts"] = []
+        # solver interfaces do not carry every tolerance through their own
+        # serialization (optlang's GLPK interface drops the integrality tolerance)
+        if self.__dict__.get("_solver") is not None:
+            odict["_solver_tolerances"] = _get_solver_tolerances(self._solver)
         return odict
 
     @property
@@ -490,6 +520,7 @@ class Model(Object):
             # Cplex has an issue with deep copies
         except Exception:  # pragma: no cover
             new._solver = copy(self.solver)  # pragma: no cover
+        _set_solver_tolerances(new._solver, _get_solver_tolerances(self.solver))
 
         return new
 
